@@ -2070,6 +2070,49 @@ example : abstractAsync lcg { demoCfgC with classC := false } mAbp 1 [.ok, .ok, 
     .uplink [1] 1 false (some 1) (some (cDown 4 false, 2)) none 59 59 := by rfl
 
 
+/-! ### `SessionExpired` INSIDE a receive procedure (builder M)
+
+`runC_fcnt_strict` reads the response of the whole procedure.  A Class C acceptance on the RXC
+parameters in the middle of a procedure can be the event that exhausts the counter space: the session
+below is at `fcnt_up = 2^32 − 2`; the uplink goes out with that counter; the first frame heard between
+TX and RX1 is accepted and moves `fcnt_up` to `2^32 − 1`; the second and the one heard between RX1 and
+RX2 are then answered `SessionExpired` by `handle_rxc` (the `heard` list), the counter stays, and the
+procedure itself ends with `SessionExpired` (`rx2_complete` at the last counter): expiry is REPORTED by
+the event, so `FcntStrict` drops its claim exactly there.  The next uplink — which the property no longer
+speaks about — carries `2^32 − 1`, still strictly above. -/
+
+def cFrame (w : Nat) : RxView × Int :=
+  (.data { len := 14, confirmed := false, fcnt16 := w, micFcnt := some w, fopts := [], fport := some 1, payload := [w] }, 5)
+
+/-- an ABP session two uplinks before the end of the counter space -/
+def mLate : MacState :=
+  { macJoinAbp (MacState.init (RegionState.init .EU868) 14 0) 7 1 2 with
+    st := .joined { Session.new 7 1 2 with fcntUp := 0xFFFFFFFE } }
+
+def lateHistoryC : List EvC :=
+  [ .uplinkC true [1] 1 false none [cFrame 1, cFrame 2] none [cFrame 3] none,
+    .uplinkC true [2] 1 false none [] none [] none ]
+
+/-- per uplink: its counter, whether the procedure reported `SessionExpired`, and for each frame handled
+inside the procedure whether `handle_rxc` answered `SessionExpired` -/
+def respOfC (o : OutC) : Option (Nat × Bool × List Bool) :=
+  match o.out with
+  | .up so r _ => some (so.frame.fcnt, expiredResp r, o.heard.map (fun x => x.resp == .sessionExpired))
+  | _ => none
+
+example : (runC lcg (mLate, 1) lateHistoryC).toOption.map (fun r => r.2.map respOfC) =
+    some [some (4294967294, true, [false, true, true]), some (4294967295, true, [])] := by decide +kernel
+example : (runC lcg (mLate, 1) lateHistoryC).toOption.map
+      (fun r => match r.1.1.st with | .joined s => some (s.fcntUp, s.fcntDown) | _ => none) =
+    some (some (4294967295, some 3)) := by decide +kernel
+
+/-- the instance of `runC_fcnt_strict` for that run, from the session's own counter -/
+example (ms' : MacState × Nat) (ocs : List OutC) (h : runC lcg (mLate, 1) lateHistoryC = .ok (ms', ocs)) :
+    FcntStrict (some 0xFFFFFFFE) ((lateHistoryC.map projEv).zip (ocs.map (fun oc => oc.out))) :=
+  runC_fcnt_strict lcg mLate 1 lateHistoryC ms' ocs (some 0xFFFFFFFE)
+    (fun lo e s hs => by cases e; cases hs; exact Nat.le_refl _) h
+
+
 end C06
 
 #print axioms C06.history_fcnt_strict
